@@ -523,12 +523,12 @@ Proof.
   - (* succeed *)
     assert (F : fr (fun e => noncb P e) s (api_succeed P cfg sid s)).
     { unfold api_succeed. eapply fr_trans; [|apply fr_log_rec; exact I].
-      apply fr_upd_plan. intros d0 Hd0. apply (pio_succ _ _ _ HPI). exact Hd0. }
+      apply fr_upd_plan. intros d0 Hd0. apply (pio_succ_set _ _ _ HPI). exact Hd0. }
     destruct (still_spec s _ _ Hs eq_refl F) as (I & A & l & E & S).
     split; [exact I|]. exists l. split; [exact E|]. rewrite A. exact S.
   - assert (F : fr (fun e => noncb P e) s (api_fail P cfg sid s)).
     { unfold api_fail. eapply fr_trans; [|apply fr_log_rec; exact I].
-      apply fr_upd_plan. intros d0 Hd0. apply (pio_fail _ _ _ HPI). exact Hd0. }
+      apply fr_upd_plan. intros d0 Hd0. apply (pio_fail_set _ _ _ HPI). exact Hd0. }
     destruct (still_spec s _ _ Hs eq_refl F) as (I & A & l & E & S).
     split; [exact I|]. exists l. split; [exact E|]. rewrite A. exact S.
   - (* plan ops through the instance *)
